@@ -154,7 +154,12 @@ class Registry:
         self.types.declare(name, t)
         return t
 
+    def _fresh_name(self, name):
+        if name in self.types.named and name not in ("K", "V"):
+            raise ValueError("type name %r is declared twice across contract files (names are global)" % name)
+
     def objtype(self, name, fields, cls=None):
+        self._fresh_name(name)
         fs = {}
         for k, v in fields.items():
             fs[k] = v
